@@ -449,6 +449,41 @@ def _scan_statics():
     return found, len(files)
 
 
+_NUMERIC_MODULES = ["sesans.py", "resolution.py", "resolution2d.py", "weights.py", "kernelpy.py", "kerneldll.py", "kernel.py", "product.py",
+                    "mixture.py", "details.py", "direct_model.py"]
+
+
+def _scan_python_state():
+    """The Python modules on the path from a request to its numbers: module-level containers that start empty or have
+    a lower-case name (tables of constants are upper-case and filled where they are written), `global` statements, and
+    functions wrapped in a cache decorator - the Python counterparts of a C static."""
+    import ast
+    found = []
+    for mod in _NUMERIC_MODULES:
+        tree = ast.parse(open(os.path.join(common.REPO, "sasmodels", mod)).read())
+        for n in tree.body:
+            if isinstance(n, (ast.Assign, ast.AnnAssign)) and n.value is not None:
+                v = n.value
+                cont = isinstance(v, (ast.Dict, ast.List, ast.Set, ast.ListComp, ast.DictComp, ast.SetComp)) or (
+                    isinstance(v, ast.Call) and ast.unparse(v.func).split(".")[-1] in ("dict", "list", "set", "OrderedDict", "defaultdict", "WeakValueDictionary", "deque"))
+                if not cont:
+                    continue
+                empty = (isinstance(v, ast.Dict) and not v.keys) or (isinstance(v, (ast.List, ast.Set)) and not v.elts) or (isinstance(v, ast.Call) and not v.args and not v.keywords) \
+                    or (isinstance(v, ast.Call) and ast.unparse(v.func).split(".")[-1] == "defaultdict")
+                for t in (n.targets if isinstance(n, ast.Assign) else [n.target]):
+                    name = ast.unparse(t)
+                    if name == "__all__":
+                        continue
+                    if empty or name != name.upper():
+                        found.append("%s:%s" % (mod, name))
+        for n in ast.walk(tree):
+            if isinstance(n, ast.Global):
+                found += ["%s:global %s" % (mod, x) for x in n.names]
+            if isinstance(n, (ast.FunctionDef, ast.AsyncFunctionDef)):
+                found += ["%s:@%s %s" % (mod, ast.unparse(d), n.name) for d in n.decorator_list if "cache" in ast.unparse(d).lower() or "memo" in ast.unparse(d).lower()]
+    return found
+
+
 def gen():
     """Regenerate Gen/C11_statics.v from the C sources of the builtin models."""
     lines = ["(* GENERATED by harness/c11.py from sasmodels/models/*.c, models/lib/*.c, kernel_iq.c, kernel_header.c *)",
@@ -456,15 +491,19 @@ def gen():
     note = None
     try:
         found, nfiles = _scan_statics()
-    except (OSError, ValueError) as exc:
+        pyfound = _scan_python_state()
+    except (OSError, ValueError, SyntaxError) as exc:
         note = "%s: %s" % (type(exc).__name__, exc)
-        found, nfiles = [], 0
+        found, nfiles, pyfound = [], 0, []
     lines.append("Definition statics_scanned : bool := %s." % ("true" if note is None else "false"))
     if note:
         lines.append("(* not scanned: %s *)" % note.replace("*)", "* )"))
     lines += ["Definition code_files_scanned : nat := %d." % nfiles,
               "(* non-const variables with static storage (file:name) *)",
-              "Definition code_mutable_statics : list string := [%s]." % "; ".join('"%s"' % f for f in found), ""]
+              "Definition code_mutable_statics : list string := [%s]." % "; ".join('"%s"' % f for f in found),
+              "(* module-level state of the Python modules between a request and its numbers (%s): containers that start empty or" % ", ".join(_NUMERIC_MODULES),
+              "   have a lower-case name, global statements, cache decorators *)",
+              "Definition code_python_module_state : list string := [%s]." % "; ".join('"%s"' % f.replace('"', "'") for f in pyfound), ""]
     common.write_if_changed(os.path.join(common.THEORIES, "Gen", "C11_statics.v"), "\n".join(lines))
     return note
 
@@ -476,7 +515,7 @@ def main(run):
     note = []
     run.prove(["C11/Property.v"], gen=lambda: note.append(gen()))
     run.notes.append(("the C sources could not be scanned for static state (%s)" % note[0]) if note and note[0] else
-                     "the C sources of the builtin models scanned for non-const variables with static storage (Gen/C11_statics.v): none (C11_code_no_static_state) - the model's 'a call is a function of its arguments and of the buffers it overwrites' has no hidden C state to miss")
+                     "the C sources of the builtin models scanned for non-const variables with static storage (Gen/C11_statics.v): none (C11_code_no_static_state), nor module-level containers, global statements or cache decorators in the Python modules between a request and its numbers (C11_code_no_module_state) - the model's 'a call is a function of its arguments and of the buffers it overwrites' has no hidden C state to miss")
     wdir = run.scratch.sub("c11")
     wpath = os.path.join(wdir, "worker.py")
     open(wpath, "w").write(WORKER)
